@@ -8,9 +8,10 @@ Nine sub-parts, one check (the report format of Stop / Fatal / PanicError chains
   deferflow  MiniGoFlow.tla every defer / panic / recover program (a tree of functions) up to a number of nodes,
                             enumerated by TLC and run by the same reference interpreter
   nest       MiniGoNest.tla every unlabelled break / continue at every position of the bodies of up to 2 (thorough 3)
-                            nested statements out of for / range over a string / range over a slice / switch / select,
-                            enumerated by TLC and run by the same reference interpreter
-  misc       GoMisc.tla     variadic calls, select with one ready case, uses of one constant at several types
+                            nested statements out of for (with / without a condition, bare) / range over a string / range
+                            over a slice / switch / select, enumerated by TLC and run by the same reference interpreter
+  misc       GoMisc.tla     variadic calls, select with one ready case, uses of one constant at several types, range over a
+                            map with one entry (int / string keys and values) between other live variables
   pkginit    PkgInit.tla    programs of several packages: every import graph over p, q, r, main, the order in which the
                             packages, their variables and their init functions are initialised; import cycles
   godata     GoData.tla     value semantics of composite data: a store model of arrays, slices (backing array, offset, len, cap),
@@ -25,9 +26,9 @@ from rig import Infra
 META = {
     "title": "Interpreted programs behave like gc",
     "engine": "GoSem",
-    "technique": "TLA+ reference of Go semantics (IntALU over BigInt, InitOrder, StrConv over Utf8, the MiniGo interpreter incl. call frames with defer / panic / recover, GoMisc: variadic calls, select, constant uses, PkgInit: initialisation of a program of several packages, GoData: a store model of arrays / slices / maps / structs / pointers / closures with an alphabet of operations on them) + implementation-shaped models of the VM's per-kind truncation switches, of the checker's declaration sort (sortDeclarations / funcVarsResolved / checkDepsPath), of the emitter's list of init functions (emitPackage / emitImport) and of the import stack of ParseProgram, model-checked exhaustively by TLC; TLC exports the case spaces - for MiniGo it runs every program to completion to obtain its output, it enumerates every defer/panic/recover program (tree of functions) up to a number of nodes and every unlabelled break / continue at every position of nested for / range / switch / select statements up to a nesting depth, and it builds the straight-line programs over composite data in which every operation of the GoData alphabet follows every operation; a Go driver writes each case as Go source (in up to four source forms; a program of several packages as go.mod + one directory per package), builds and runs it with the real scriggo.Build/Run; a TLC Trace spec judges every observation against the reference; gc is consulted only for failing cases (oracle guard)",
+    "technique": "TLA+ reference of Go semantics (IntALU over BigInt, InitOrder, StrConv over Utf8, the MiniGo interpreter incl. call frames with defer / panic / recover, GoMisc: variadic calls, select, constant uses, range over a one-entry map, PkgInit: initialisation of a program of several packages, GoData: a store model of arrays / slices / maps / structs / pointers / closures with an alphabet of operations on them) + implementation-shaped models of the VM's per-kind truncation switches, of the checker's declaration sort (sortDeclarations / funcVarsResolved / checkDepsPath), of the emitter's list of init functions (emitPackage / emitImport) and of the import stack of ParseProgram, model-checked exhaustively by TLC; TLC exports the case spaces - for MiniGo it runs every program to completion to obtain its output, it enumerates every defer/panic/recover program (tree of functions) up to a number of nodes and every unlabelled break / continue at every position of nested for / range / switch / select statements up to a nesting depth, and it builds the straight-line programs over composite data in which every operation of the GoData alphabet follows every operation; a Go driver writes each case as Go source (in up to four source forms; a program of several packages as go.mod + one directory per package), builds and runs it with the real scriggo.Build/Run; a TLC Trace spec judges every observation against the reference; gc is consulted only for failing cases (oracle guard)",
     "level": "model_checking",
-    "level_text": "TLC model-checks Impl(op,kind,x,y) against Ref for all 11 integer kinds x 17 binary + 2 unary operators + conversions x boundary operands x shift counts of every count kind (register and constant-operand forms); the declaration-sort algorithm of the checker, under both textual orders of the dependencies, against the Go spec's initialisation algorithm for all dependency graphs over 3 variables + 1 function with at most 3 edges and all 'through functions' graphs (no direct variable -> variable edge; chains, recursion and mutual recursion of functions) over 3 variables + 2 functions with at most 5 edges (thorough: all 65 536 graphs over 3 + 1, all graphs over 4 + 2 with at most 3 edges, through-functions graphs with at most 6 edges); the same cases are run through the real Build/Run in up to four source forms each and every printed value / panic message / build outcome is judged by the TLA+ reference. MiniGo programs (labelled break / continue across for, range and switch, switch/fallthrough, goto, closures, arrays/structs/slices/maps, strings, run-time faults, operand evaluation order of println) are interpreted by TLC and their output compared with the real run; every defer/panic/recover program of at most 5 (thorough 6) nodes - nested calls, deferred calls, panics raised while panicking, recover at every position - is enumerated and interpreted by TLC and run as top-level functions and as function literals; every nest of 1..2 (thorough 1..3) statements out of three-clause for / range over a string / range over a slice / switch / select { default } (nests of the greatest depth: one of the two range kinds per level, alternating with the seed) with one unlabelled break or continue (continue where a loop is around it), bare or inside an if on the loop variables, at every position of every body (before the first print, after it, after the nested statement, at the end), every body printing the loop variables before and after the nested statement and the program printing a line after the nest, is enumerated and interpreted by TLC (the Go specification's 'innermost for, switch, or select statement' / 'innermost enclosing for loop') and run; every variadic call shape (0..2 fixed, 0..3 variadic arguments or a nil / empty / non-empty slice spread), every select over 2..3 buffered channels with exactly one (or no) ready case, and every sequence of up to 3 (thorough 4) uses of one bool / int constant at different types is run and judged. Programs of several packages: every acyclic import graph over the packages p, q, r and main (370 graphs, every order of the import declarations: chains, fans, diamonds, a package imported directly and through another) with 2 (thorough 24) drawn decorations each - 0..2 variables per package whose initialisers print and read a variable of an imported package or of their own package, 0..2 init functions per package that print and write a variable of an imported package, main prints every final value - in two source forms; TLC model-checks the emitter's construction of the list of init functions against the Go specification's order (imported packages first, every package once, variables before init functions, main last; independent packages in the order of their import paths, the Go 1.21 rule, which the construction does not follow: model counterexamples, and the only output the judge accepts is the one of that order); every import graph with a cycle (1290; the quick tier runs a third of them, chosen by the seed) must be rejected by Build. Composite data (GoData): a fixed set of variables - an int, two [3]int arrays, three []int slices, two map[int]int, two structs with an array field, a *int, a *struct, a func() - and an alphabet of 93 operations on them: array assignment and parameter passing (copies), writes through a pointer to an array, slice expressions s[i:j] and s[i:j:k] on slices and on an array variable, element writes, append in place / reallocating / through a 3-index slice / of a slice to itself / into another variable, copy with overlapping operands, nil and empty slices, map assignment (aliasing), insertion, delete, reads and writes of a nil map, struct assignment and field updates through a copy and through a pointer, pointers to a variable, an array element, a slice element and a struct field, closures that refer to variables and closures over copied parameters, range over an array (a copy), over a pointer to an array, over an array field and over a slice with writes to the elements and to the slice variable inside the body; for every ordered pair (x, y) of operations (quick: a third of the pairs, chosen by the seed) the program `drawn prefix; x; y` (quick: 1 prefix of 1 operation per pair, thorough: 6 prefixes of 2 operations) is run by the TLA+ store model and by the real Build/Run, the whole observable state (every variable, len, nil-ness, cap where the language fixes it, the pointees) being printed before the first and after every operation; the judge (TLC) runs the reference again on the logged operations and compares every line and the class of the run-time panic. The reference never observes what the language leaves open: the capacity after a growing append is a lower bound only, programs whose output would depend on it are not generated (counted), maps are only read by key.",
+    "level_text": "TLC model-checks Impl(op,kind,x,y) against Ref for all 11 integer kinds x 17 binary + 2 unary operators + conversions x boundary operands x shift counts of every count kind (register and constant-operand forms); the declaration-sort algorithm of the checker, under both textual orders of the dependencies, against the Go spec's initialisation algorithm for all dependency graphs over 3 variables + 1 function with at most 3 edges and all 'through functions' graphs (no direct variable -> variable edge; chains, recursion and mutual recursion of functions) over 3 variables + 2 functions with at most 5 edges (thorough: all 65 536 graphs over 3 + 1, all graphs over 4 + 2 with at most 3 edges, through-functions graphs with at most 6 edges); the same cases are run through the real Build/Run in up to four source forms each and every printed value / panic message / build outcome is judged by the TLA+ reference. MiniGo programs (labelled break / continue across for, range and switch, switch/fallthrough, goto, closures, arrays/structs/slices/maps, strings, run-time faults, operand evaluation order of println) are interpreted by TLC and their output compared with the real run; every defer/panic/recover program of at most 5 (thorough 6) nodes - nested calls, deferred calls, panics raised while panicking, recover at every position - is enumerated and interpreted by TLC and run as top-level functions and as function literals; every nest of 1..2 (thorough 1..3) statements out of three-clause for / for without a condition (for v := 0; ; v++ with a guarded break: continue must run the post statement) / the bare for { } / range over a string / range over a slice / switch / select { default } (nests deeper than the depth up to which all kinds are combined: one of the two range kinds per level, alternating with the seed; nests of depth 3 also one of the three kinds of for per level, in rotation) with one unlabelled break or continue (continue where a loop is around it), bare or inside an if on the loop variables, at every position of every body (before the first print, after it, after the nested statement, at the end), every body printing the loop variables before and after the nested statement and the program printing a line after the nest, is enumerated and interpreted by TLC (the Go specification's 'innermost for, switch, or select statement' / 'innermost enclosing for loop') and run; every variadic call shape (0..2 fixed, 0..3 variadic arguments or a nil / empty / non-empty slice spread), every select over 2..3 buffered channels with exactly one (or no) ready case, every sequence of up to 3 (thorough 4) uses of one bool / int constant at different types, and every range statement over a map literal with one entry (int / string keys and values; k / k, v / _, v) between 0..2 other live string variables and 0..1 live int variables is run and judged. Programs of several packages: every acyclic import graph over the packages p, q, r and main (370 graphs, every order of the import declarations: chains, fans, diamonds, a package imported directly and through another) with 2 (thorough 24) drawn decorations each - 0..2 variables per package whose initialisers print and read a variable of an imported package or of their own package, 0..2 init functions per package that print and write a variable of an imported package, main prints every final value - in two source forms; TLC model-checks the emitter's construction of the list of init functions against the Go specification's order (imported packages first, every package once, variables before init functions, main last; independent packages in the order of their import paths, the Go 1.21 rule, which the construction does not follow: model counterexamples, and the only output the judge accepts is the one of that order); every import graph with a cycle (1290; the quick tier runs a third of them, chosen by the seed) must be rejected by Build. Composite data (GoData): a fixed set of variables - an int, two [3]int arrays, three []int slices, two map[int]int, two structs with an array field, a *int, a *struct, a func() - and an alphabet of 93 operations on them: array assignment and parameter passing (copies), writes through a pointer to an array, slice expressions s[i:j] and s[i:j:k] on slices and on an array variable, element writes, append in place / reallocating / through a 3-index slice / of a slice to itself / into another variable, copy with overlapping operands, nil and empty slices, map assignment (aliasing), insertion, delete, reads and writes of a nil map, struct assignment and field updates through a copy and through a pointer, pointers to a variable, an array element, a slice element and a struct field, closures that refer to variables and closures over copied parameters, range over an array (a copy), over a pointer to an array, over an array field and over a slice with writes to the elements and to the slice variable inside the body; for every ordered pair (x, y) of operations (quick: a third of the pairs, chosen by the seed) the program `drawn prefix; x; y` (quick: 1 prefix of 1 operation per pair, thorough: 6 prefixes of 2 operations) is run by the TLA+ store model and by the real Build/Run, the whole observable state (every variable, len, nil-ness, cap where the language fixes it, the pointees) being printed before the first and after every operation; the judge (TLC) runs the reference again on the logged operations and compares every line and the class of the run-time panic. The reference never observes what the language leaves open: the capacity after a growing append is a lower bound only, programs whose output would depend on it are not generated (counted), maps are only read by key.",
     "level_note": "Trusted: TLC, lib/BigInt.tla and lib/Utf8.tla, the concretiser (record -> Go source by string templates) and the print capture of the driver. gc is not on the passing path. The final outcome judged for a panic is the message of the newest panic (PanicError.String); the chain format and Stop/Fatal are C12's. Not covered: floating point and complex numbers, print formatting of floats, the // run corpus, goroutines and unbuffered channels (C14), methods on Scriggo-defined types and generics (outside Scriggo's subset), runtime.Goexit, panic values other than int and run-time errors, select statements with communication clauses inside loops (the select of the nests has only a default clause), type switches and range over maps / channels / integers / functions as the statements of a nest, goto out of a nest, named results modified by deferred closures (where the Go specification's wording on recover() leaves room - a deferred call run by an ordinary return while an outer panic is in progress - the reference follows gc: nil; the reference was audited against gc on 572 programs of the defer/panic/recover space), register-allocation pressure beyond the generated programs; for programs of several packages: packages of more than one file, more than 4 packages, blank / dot / renamed imports, native packages; for composite data: element types other than int, arrays of arrays / of structs, slices of slices, maps with composite values, struct fields of slice / map / pointer type, embedded structs, methods, strings, channels, interface values holding composite data, map iteration, programs longer than 4 operations, package-level variables (the GoData reference was compared with gc on every program of a quick-tier run, 2880 programs, during development: no difference).",
     "design_ref": "7/C01",
 }
@@ -47,9 +48,7 @@ _GD_WHAT = {
 _GD_ORDER = ["assignment-replaces-storage", "write-through-array-pointer-lost", "range-over-array-not-a-copy"]
 # one entry per defect, and one per combination of them that a single program can run into (the judge names the
 # deviations of the reference store model under which the observed output is exactly reproduced: GdLike, Trace_GoSem.tla)
-PROPOSED_KNOWN = [{"kind": "known", "signature": {"fam": "godata", "cause": "wrong-output", "like": "+".join(c)},
-                   "what": ("a program that runs into %d defects: " % len(c) if len(c) > 1 else "") + "; and: ".join(_GD_WHAT[k] for k in c)}
-                  for c in ([[k] for k in _GD_ORDER] + [[_GD_ORDER[0], _GD_ORDER[1]], [_GD_ORDER[0], _GD_ORDER[2]], [_GD_ORDER[1], _GD_ORDER[2]], _GD_ORDER])]
+PROPOSED_KNOWN = []   # integrated into known-findings.json (the three GoData defects were fixed in /repo)
 
 BASE = {"intalu": 0, "initorder": 1000000, "conv": 2000000, "minigo": 3000000, "deferflow": 4000000, "misc": 5000000,
         "pkginit": 6000000, "nest": 7000000, "godata": 8000000}
@@ -549,7 +548,7 @@ def mg_programs(rng, n):
     return out
 
 
-MG_ALL_KINDS = {"e:" + k for k in ("c", "str", "v", "bin", "cmp", "and", "or", "not", "idx", "mapget", "len", "cap", "slice", "field", "addr",
+MG_ALL_KINDS = {"e:" + k for k in ("c", "str", "v", "nocond", "bin", "cmp", "and", "or", "not", "idx", "mapget", "len", "cap", "slice", "field", "addr",
                                    "nilptr", "nilmap", "nilslice", "mkmap", "mkslice", "mkfuncs", "lit", "slicelit", "append", "clo", "call",
                                    "box", "assert", "fn", "recover", "isnil")} | \
                {"s:" + k for k in ("nop", "label", "decl", "set", "print", "if", "for", "ranges", "switch", "break", "continue", "goto", "del",
@@ -651,7 +650,7 @@ def part_deferflow(ctx):
 def part_nest(ctx):
     """All programs of MiniGoNest.tla: an unlabelled break / continue at every position of the bodies of nested for / range /
     switch / select statements; TLC enumerates them, runs the reference interpreter on each and prints one case per program."""
-    # (depth, full): statements nested; up to depth `full` a statement is of any of the 5 kinds, deeper programs have one kind of
+    # (depth, full): statements nested; up to depth `full` a statement is of any of the 7 kinds, deeper programs have one kind of
     # range statement per level (over a slice / over a string, alternating with the level and the seed)
     depth, full = ctx.pick((2, 1), (3, 2))
     wd = ctx.stage("mc_nest", FAMS)
@@ -676,7 +675,7 @@ def part_nest(ctx):
     used = set()
     mg_kinds([c["prog"] for c in cases], used)
     info = {"states": r.distinct, "transitions": r.generated, "mc_wall_s": round(r.wall, 1), "mc_invariants": invs,
-            "max_nested_statements": depth, "all_five_kinds_up_to_depth": full, "cases": len(cases),
+            "max_nested_statements": depth, "all_seven_kinds_up_to_depth": full, "cases": len(cases),
             "programs_by_jump_target_and_enclosing_statement": by,
             "programs_whose_jump_is_conditional": sum(1 for c in cases if c["shape"].endswith(":if")),
             "interpreter_cases_exercised": sorted(used)}
@@ -685,7 +684,7 @@ def part_nest(ctx):
 
 def part_misc(ctx):
     wd = ctx.stage("mc_misc", FAMS)
-    invs = ["VariadicSane", "SelectSane", "ConstUseSane"]
+    invs = ["VariadicSane", "SelectSane", "ConstUseSane", "MapRangeSane"]
     depth = ctx.pick(3, 4)
     rig.write_cfg(wd / "MC_GoMisc.cfg", constants={"Depth": depth}, invariants=invs)
     r = ctx.tlc(wd, "MC_GoMisc", workers=4, timeout=1500, must_pass=True)
@@ -783,7 +782,7 @@ def part_godata(ctx):
 PARTS = [("intalu", part_intalu), ("initorder", part_initorder), ("conv", part_conv), ("minigo", part_minigo),
          ("deferflow", part_deferflow), ("nest", part_nest), ("misc", part_misc), ("pkginit", part_pkginit),
          ("godata", part_godata)]
-MISC_FAMS = ("variadic", "select", "constuse")
+MISC_FAMS = ("variadic", "select", "constuse", "maprange")
 
 
 # ------------------------------------------------------------------------------------------ helpers
@@ -854,6 +853,8 @@ def nontrivial(o):
         return o["mode"] == "spread" or o["nvar"] == 0
     if o["fam"] == "constuse":    # the constant is used at two types or more
         return len(set(o["uses"])) >= 2
+    if o["fam"] == "maprange":    # a key or value of type string, or another live variable around the loop
+        return o["kt"] == "string" or o["vt"] == "string" or o["live"] + o["ilive"] > 0
     if o["fam"] == "pkginit":     # two packages or more have something to initialise
         return sum(1 for i in range(len(o["imps"])) if o["vars"][i] or o["inits"][i]) >= 2
     if o["fam"] == "godata":      # the program ran to its end (every operation took effect on the state left by the one before)
@@ -1058,7 +1059,7 @@ def run(ctx, replay_cases=None):
         parts=infos,
         evaluations=len(allobs), traces_validated_against_impl=len(allobs),
         distinct_nontrivial=len({json.dumps(case_from_obs(o), sort_keys=True) + str(o.get("form", "")) for o in allobs if nontrivial(o)}),
-        rule="minigo: seeded programs of 11 shapes (labelled loops, labelled break / continue across for / range / switch, switch/fallthrough, goto, closures, array/struct/pointer values, slice aliasing, maps, strings, run-time faults, println operand order), expected output computed by TLC; deferflow: every tree of functions over the nodes call / defer / recover / panic with at most max_nodes nodes, all of whose nodes run, interpreted by TLC, in the source forms named / literal; nest: every program of MiniGoNest.tla (kinds of the nested statements x break / continue x level x position x bare / inside an if) up to max_nested_statements, interpreted by TLC; non-trivial = more than one printed line or a panic. conv: all conversions of the 12-value rune set / strings of <= MaxPieces well- and ill-formed UTF-8 pieces; non-trivial = a non-ASCII value is involved. initorder: every dependency graph of the bounded spaces, one program per textual order of the dependencies; non-trivial = at least one edge. intalu: TLC-exported space (all kinds x operators x boundary operands x shift counts), each case in the source forms var / literal operand / op-assignment / if-condition; non-trivial = result wrapped, shifted out, divided, converted or panicked. variadic / select / constuse: the spaces of MC_GoMisc.tla, one program per case; non-trivial = nothing or a slice passed for the variadic parameter / every select / the constant used at two types or more. pkginit: every import graph over p, q, r, main (with and without cycles, every order of the import declarations) x drawn decorations, in the source forms separate / grouped import declarations; non-trivial = two packages or more have variables or init functions. godata: the programs prefix ; x ; y of MC_GoData.tla for the ordered pairs (x, y) of the 93 operations of the GoData alphabet, one record per program; non-trivial = the program runs to its end in the reference (no operation panics). One record per (case, form).",
+        rule="minigo: seeded programs of 11 shapes (labelled loops, labelled break / continue across for / range / switch, switch/fallthrough, goto, closures, array/struct/pointer values, slice aliasing, maps, strings, run-time faults, println operand order), expected output computed by TLC; deferflow: every tree of functions over the nodes call / defer / recover / panic with at most max_nodes nodes, all of whose nodes run, interpreted by TLC, in the source forms named / literal; nest: every program of MiniGoNest.tla (kinds of the nested statements x break / continue x level x position x bare / inside an if) up to max_nested_statements, interpreted by TLC; non-trivial = more than one printed line or a panic. conv: all conversions of the 12-value rune set / strings of <= MaxPieces well- and ill-formed UTF-8 pieces; non-trivial = a non-ASCII value is involved. initorder: every dependency graph of the bounded spaces, one program per textual order of the dependencies; non-trivial = at least one edge. intalu: TLC-exported space (all kinds x operators x boundary operands x shift counts), each case in the source forms var / literal operand / op-assignment / if-condition; non-trivial = result wrapped, shifted out, divided, converted or panicked. variadic / select / constuse / maprange: the spaces of MC_GoMisc.tla, one program per case; non-trivial = nothing or a slice passed for the variadic parameter / every select / the constant used at two types or more / a string key or value or another live variable around the range over a map. pkginit: every import graph over p, q, r, main (with and without cycles, every order of the import declarations) x drawn decorations, in the source forms separate / grouped import declarations; non-trivial = two packages or more have variables or init functions. godata: the programs prefix ; x ; y of MC_GoData.tla for the ordered pairs (x, y) of the 93 operations of the GoData alphabet, one record per program; non-trivial = the program runs to its end in the reference (no operation panics). One record per (case, form).",
         exhaustive=True,
         samples=[sample(o) for fam in sorted(by_fam) for o in rig.pick_samples(by_fam[fam], 2, ctx.seed)],
     )
